@@ -170,3 +170,66 @@ def realise(case, seed=0):
     else:
         raise ValueError(term)
     return {"form": form, "exact_ok": rule == "exact", "case": case, "gdim": gd, "tdim": td}
+
+
+FACET_CELL = {"interval": "vertex", "triangle": "interval", "quadrilateral": "interval", "tetrahedron": "triangle",
+              "hexahedron": "quadrilateral"}
+
+
+def realise_facet(item):
+    """FCASE of FormSpace.tla -> form with one facet / vertex integral."""
+    ensure_repo_on_path()
+    import basix.ufl as bu
+    import ufl
+    from ufl import avg, dot, grad, inner, jump
+
+    case = item["case"]
+    rnd = random.Random(item["seed"])
+    cell, ek, term, meas, rule = (case[k] for k in ("cell", "elem", "term", "measure", "rule"))
+    td = TDIM[cell]
+    dom = ufl.Mesh(bu.element("Lagrange", cell, 1, shape=(td,)))
+    V = ufl.FunctionSpace(dom, make_element(ek, cell, td))
+    u, v = ufl.TrialFunction(V), ufl.TestFunction(V)
+    x, n = ufl.SpatialCoordinate(dom), ufl.FacetNormal(dom)
+    M = {"ds": ufl.ds, "dS": ufl.dS, "dP": ufl.dP}[meas]
+    which = rnd.randrange(8)
+    if rule == "custom":
+        dM = M(metadata=custom_md(FACET_CELL[cell], which))
+    elif rule == "vertex":
+        dM = M(scheme="vertex", degree=1)
+    else:
+        dM = M
+
+    def coef(kind):
+        return ufl.Coefficient(ufl.FunctionSpace(dom, make_element(kind, cell, td)))
+
+    if term == "mass":
+        form = inner(u, v) * dM
+    elif term == "flux":
+        form = inner(dot(grad(u), n), v) * dM
+    elif term == "coef":
+        form = coef("P1") * inner(u, v) * dM
+    elif term == "xw":
+        form = x[0] * n[td - 1] * u * v * dM
+    elif term == "nload":
+        form = dot(coef("vP1"), n) * v * dM
+    elif term == "fload":
+        form = inner(ufl.Coefficient(V), v) * dM
+    elif term == "area":
+        form = coef("P1") * dM
+    elif term == "jump":
+        form = inner(jump(u), jump(v)) * dM
+    elif term == "avgflux":
+        form = inner(dot(avg(grad(u)), n("+")), jump(v)) * dM
+    elif term == "pm":
+        form = inner(u("+"), v("-")) * dM + 2 * inner(u("-"), v("-")) * dM
+    elif term == "coefpm":
+        f, g = coef("P1"), coef("DG0")
+        form = f("+") * g("-") * inner(u("-"), v("+")) * dM
+    elif term == "jumpload":
+        form = inner(jump(ufl.Coefficient(V)), avg(v)) * dM
+    elif term == "njump":
+        form = dot(jump(u, n), jump(v, n)) * dM
+    else:
+        raise ValueError(term)
+    return {"form": form, "exact_ok": rule == "exact", "case": case, "gdim": td, "tdim": td}
